@@ -14,11 +14,16 @@ NCPU = os.cpu_count() or 4
 # ----------------------------------------------------------------------------
 # build configurations
 # ----------------------------------------------------------------------------
-COMMON = ("-fno-omit-frame-pointer -g1 -Wno-everything -I{repo}/include -I{verif} "
+COMMON = ("-fno-omit-frame-pointer -g1 -w -I{repo}/include -I{verif} "
           "-include {verif}/kit/prelude.hpp -pthread")
 CONFIGS = {
     # primary: C++17, asserts on (they join the oracle), async stacks off, ASan+UBSan
-    "p17": dict(cxx="clang++", std="gnu++17", opt="-O1",
+    # g++ is the compiler of the pinned build; clang-14's C++17 concept emulation also mis-compiles some
+    # adaptor compositions (cached false receiver_of<> evaluations), which g++ and clang C++20 do not
+    "p17": dict(cxx="g++", std="gnu++17", opt="-O1",
+                flags="-fsanitize=address,undefined -fno-sanitize-recover=undefined -fno-sanitize=vptr "
+                      "-UNDEBUG -DUNIFEX_NO_ASYNC_STACKS=1"),
+    "c17": dict(cxx="clang++", std="gnu++17", opt="-O1",
                 flags="-fsanitize=address,undefined -fno-sanitize-recover=undefined -fno-sanitize=vptr,function "
                       "-UNDEBUG -DUNIFEX_NO_ASYNC_STACKS=1"),
     "p20": dict(cxx="clang++", std="gnu++20", opt="-O1",
@@ -169,6 +174,7 @@ UBSAN_OPTS = "print_stacktrace=1:halt_on_error=1:exitcode=98"
 
 def run_env():
     e = dict(os.environ)
+    e["VK_LIVE_TRACE"] = "1"
     e["ASAN_OPTIONS"] = ASAN_OPTS
     e["UBSAN_OPTIONS"] = UBSAN_OPTS
     e["LSAN_OPTIONS"] = "exitcode=97"
